@@ -267,6 +267,29 @@ Theorem c14_cache_own_grouping : forall hist aa,
   forall o, In o (snd (dq_cache_get (run_calls hist) aa)) <-> In o (dq_objs aa).
 Proof. exact cache_own_grouping. Qed.
 Print Assumptions c14_cache_own_grouping.
+(* the listing order of the request (Go map iteration: it decides the order of the
+   concatenation and with it, for indexes with EQUAL names - every unpinned
+   repository, the configuration NewMultiArch produces - the path walked in the
+   trie): whatever the order in which the map is listed, after any history, the
+   call is handed the members of its own map.  A lookup that walks another path
+   than the call that stored the entry misses and recomputes; it can never be
+   handed another grouping's set. *)
+Theorem c14_cache_listing_order_irrelevant : forall hist aa aa',
+  Permutation aa' aa -> go_map aa -> Forall go_map hist -> coherent (aa :: hist) ->
+  forall o, In o (snd (dq_cache_get (run_calls hist) aa')) <-> In o (dq_objs aa).
+Proof. exact cache_listing_order. Qed.
+Print Assumptions c14_cache_listing_order_irrelevant.
+(* two listings of one map of unnamed indexes have different keys: the second call misses, stores a second entry and is handed the same set *)
+Example c14_cache_listing_order_example :
+  let i0 := NI 0 "" [mp "only" "1" [] [] []; mp "common" "1" [] [] []] in
+  let i1 := NI 1 "" [mp "common" "1" [] [] []] in
+  let a := [("x", [i0]); ("y", [i1])] in
+  let b := [("y", [i1]); ("x", [i0])] in
+  dq_cache_key a = [0; 1] /\ dq_cache_key b = [1; 0] /\
+  List.length (run_calls [a; b]) = 2 /\
+  snd (dq_cache_get (run_calls [a]) b) = [(0, 0)] /\ snd (dq_cache_get (run_calls [a; b]) a) = [(0, 0)].
+Proof. vm_compute. repeat split; reflexivity. Qed.
+
 (* concurrent per-architecture resolutions (MultiArch.BuildPackageLists / BuildLayers:
    one call per architecture at the same time).  Get is ONE critical section
    (c14_source_shape: dq-cache-critical-section), so an execution of concurrent
